@@ -25,3 +25,33 @@ package keygen
 //@   loop 2: invariant fresh(ShamirPublicPolynomials)
 //@   loop 3: invariant fresh(PublicData) && ShamirPublicPolynomial != nil
 //@   loop 3: invariant[C08,C02] each(r.Helper.partyIDs[:rangeindex+1], j, indom(PublicData, j) && PublicData[j] != nil && fresh(PublicData[j]) && ptval(PublicData[j].ECDSA) == ite(r.PreviousPublicSharesECDSA != nil, p_add(evalpt(ShamirPublicPolynomial, idsc(j)), old(ptval(r.PreviousPublicSharesECDSA[j]))), evalpt(ShamirPublicPolynomial, idsc(j))))
+
+// ---- round state invariants (established by the start function / the previous Finalize)
+//@ pred khok(h *round.Helper) := h != nil && h.hash != nil && h.hash.h != nil && h.info.Group != nil && !held(h.mtx)
+//@ pred k1ok(r *round1) := r != nil && khok(r.Helper) && r.VSSSecret != nil && r.VSSSecret.group != nil && len(r.VSSSecret.coefficients) > 0 && r.VSSSecret.coefficients[0] != nil
+//@ pred k2ok(r *round2) := r != nil && k1ok(r.round1) && r.VSSPolynomials != nil && r.Commitments != nil && r.RIDs != nil && r.ChainKeys != nil && r.ShareReceived != nil && r.ElGamalPublic != nil && r.PaillierPublic != nil && r.Pedersen != nil && r.RIDs != r.ChainKeys
+//@ pred k3ok(r *round3) := r != nil && k2ok(r.round2) && r.SchnorrCommitments != nil
+// what the CBOR decoder leaves in the content template of BroadcastContent() (A-CBOR)
+//@ pred dec_b3(b *broadcast3) := (b.VSSPolynomial != nil ==> expok(b.VSSPolynomial)) && (b.SchnorrCommitments != nil ==> shapedComm(b.SchnorrCommitments)) && b.ElGamalPublic != nil
+
+// Round 3 acceptance gate (C03, C02, C08, C05): a broadcast is stored only if all fields are present, the VSS
+// polynomial has degree exactly the threshold and a zero constant term exactly when this session is a refresh
+// (so that the group key cannot move), the Paillier modulus has 2048 bits, the Pedersen parameters validate, and the
+// round-2 commitment opens to exactly these values; the stored values are the verified ones.
+//@ func (*round3).StoreBroadcastMessage
+//@   nopanic[C05]
+//@   use bits
+//@   requires k3ok(r) && msg.Content != nil && (typeis(msg.Content, *broadcast3) ==> (msg.Content.(*broadcast3) != nil ==> dec_b3(msg.Content.(*broadcast3))))
+//@   let body = msg.Content.(*broadcast3)
+//@   ensures[C03,C02] result == nil ==> typeis(msg.Content, *broadcast3) && body != nil && body.N != nil && body.S != nil && body.T != nil && body.VSSPolynomial != nil && body.SchnorrCommitments != nil
+//@   ensures[C03,C02,C08] result == nil ==> polydeg(body.VSSPolynomial) == r.Helper.info.Threshold
+//@   ensures[C03,C08] result == nil ==> body.VSSPolynomial.IsConstant == (scval(r.VSSSecret.coefficients[0]) == s_zero())
+//@   ensures[C03,C15] result == nil ==> nbits(natval(body.N)) == 2048
+//@   ensures[C03,C19] result == nil ==> lastresult(Decommit)
+//@   ensures[C03,C02] result == nil ==> r.VSSPolynomials[msg.From] == body.VSSPolynomial
+//@   ensures[C03,C02] result == nil ==> r.RIDs[msg.From] == body.RID
+//@   ensures[C03,C14] result == nil ==> r.ChainKeys[msg.From] == body.C
+//@   ensures[C03] result == nil ==> r.SchnorrCommitments[msg.From] == body.SchnorrCommitments
+//@   ensures[C03] result == nil ==> r.ElGamalPublic[msg.From] == body.ElGamalPublic
+//@   ensures[C03] result == nil ==> (r.PaillierPublic[msg.From] != nil && natval(r.PaillierPublic[msg.From].nNat) == natval(body.N) && r.Pedersen[msg.From] != nil && r.Pedersen[msg.From].s == body.S && r.Pedersen[msg.From].t == body.T)
+//@   assert_at[C03,C19] Decommit "Decommit(r.Commitments[from], body.Decommitment,": arg1 == r.Commitments[msg.From] && arg2 == body.Decommitment && len(arg3) == 8
